@@ -19,4 +19,15 @@ FacApply(doms, w, values) == w[BFlat(FacShape(doms), [i \in DOMAIN doms |-> DomN
 FacEq(f1, f2) == /\ Len(f1.doms) = Len(f2.doms)
                  /\ \A i \in DOMAIN f1.doms : DomEq(f1.doms[i], f2.doms[i])
                  /\ f1.w = f2.w
+
+(* Binding a factor to a terminal edge label whose type is a sequence of node     *)
+(* labels, in an interpretation `bound` (node label -> domain, for the labels     *)
+(* that have one): allowed exactly when the arities agree and, POSITION BY        *)
+(* POSITION, the factor's domain equals the domain bound to the node label at     *)
+(* that position (a node label occurring several times is checked at every        *)
+(* occurrence); shape() is then the tuple of domain sizes.                        *)
+BindAllowed(type, bound, fdoms) ==
+  /\ Len(fdoms) = Len(type)
+  /\ \A i \in DOMAIN type : type[i] \in DOMAIN bound /\ DomEq(fdoms[i], bound[type[i]])
+BindShape(type, bound) == [i \in DOMAIN type |-> DomSize(bound[type[i]])]
 =============================================================================
